@@ -547,6 +547,10 @@ func (r *Runner) stepCopy(op Op) []Disc {
 	return ds
 }
 
+// NullRef as a multi-delete version reference sends the version ID "null" (only meaningful in
+// buckets that never had versioning).
+const NullRef = -2000000
+
 func (r *Runner) stepMultiDelete(op Op) []Disc {
 	m := r.M
 	type obj struct {
@@ -583,11 +587,19 @@ func (r *Runner) stepMultiDelete(op Op) []Disc {
 		op.Keys, op.VRefs = keys, refs
 	}
 	ids := make([]string, len(op.Keys))
+	sentNull := map[string]bool{}
 	for i, k := range op.Keys {
 		if op.VRefs[i] >= 0 {
 			ids[i] = r.VersionID(op.B, k, op.VRefs[i])
 		}
-		dr.Objects = append(dr.Objects, obj{Key: k, VersionId: ids[i]})
+		sent := ids[i]
+		if op.VRefs[i] == NullRef {
+			// the spelling a never-versioned bucket's listing shows for its entries: it means
+			// "no version", like ?versionId=null on a single delete
+			sent = "null"
+			sentNull[k] = true
+		}
+		dr.Objects = append(dr.Objects, obj{Key: k, VersionId: sent})
 	}
 	body, _ := xml.Marshal(dr)
 	resp := r.do(r.req("POST", op.B, "", s3x.Q("delete", s3x.Bare), nil, body))
@@ -608,6 +620,9 @@ func (r *Runner) stepMultiDelete(op Op) []Disc {
 	}
 	var got []string
 	for _, d := range doc.Deleted {
+		if sentNull[d.Key] && d.VersionId == "null" {
+			d.VersionId = "" // echoed as sent
+		}
 		got = append(got, d.Key+"\x00"+d.VersionId)
 	}
 	var want []string
